@@ -22,7 +22,14 @@ const (
 	cbModule  = "testmod"
 	modSvc    = "modsvc"
 	cbModAtom = 7001
+	// the module registered for modSvc: the atom of its provider address and the fixed answer of its
+	// request function (result code, output atom); header line `M` of a trace, XCallMod of Model/ModSvc.v
+	modProvAtom = 161
+	modSvcCode  = 200
+	modSvcOut   = 7003
 )
+
+var modProvBytes = []byte("module-service-prov1")
 
 // Atoms: the integers the model works with, and the real bytes they stand for.
 type Atoms struct {
@@ -174,12 +181,12 @@ func newWorld() *World {
 	must(w.k.RegisterStateCallback(cbModule, func(ctx sdk.Context, id tmbytes.HexBytes, cause string) {
 		w.cbLog = append(w.cbLog, cbRec{kind: "s", ctxID: append([]byte{}, id...)})
 	}))
-	w.modProv = sdk.AccAddress([]byte("module-service-prov1"))
+	w.modProv = sdk.AccAddress(modProvBytes)
 	must(w.k.RegisterModuleService("oracle", &types.ModuleService{
 		ServiceName: modSvc,
 		Provider:    w.modProv,
 		ReuquestService: func(ctx sdk.Context, input string) (string, string) {
-			return `{"code":200,"message":""}`, `{"header":{},"body":{}}`
+			return resultText(modSvcCode), outputText(modSvcOut, true)
 		},
 	}))
 	return w
